@@ -309,9 +309,11 @@ func c15Exec(c c15Case) (keys []string, detail, class string) {
 		switch {
 		case strings.HasPrefix(bad[0], "not well-formed"):
 			what = "not-well-formed"
+		case strings.Contains(bad[0], "has attributes") || strings.Contains(bad[0], " attributes, "):
+			what = "attribute-set-differs"
 		case strings.Contains(bad[0], "schema order") || strings.Contains(bad[0], "Signature is child"):
 			what = "schema-order"
-		case strings.Contains(bad[0], "IssueInstant"):
+		case strings.Contains(bad[0], "root@IssueInstant"):
 			what = "IssueInstant"
 		case strings.Contains(bad[0], "text") || strings.Contains(bad[0], "@"):
 			what = "value-not-recovered"
